@@ -308,8 +308,6 @@ impl<RW: QueueRW<T>, T> MultiQueue<RW, T> {
                     Some(new_transaction) => transaction = new_transaction,
                     None => {
                         let current_tag = write_cell.wraps.load(Relaxed);
-                        #[cfg(multiqueue2_verif)]
-                        crate::verif_hooks::touch(&write_cell.val as *const T);
 
                         // This will delay the dropping of the exsisting item until
                         // after the write is done. This will have a marginal effect on
@@ -321,6 +319,8 @@ impl<RW: QueueRW<T>, T> MultiQueue<RW, T> {
                         } else {
                             None
                         };
+                        #[cfg(multiqueue2_verif)]
+                        crate::verif_hooks::touch(&write_cell.val as *const T);
                         ptr::write(&mut write_cell.val, val);
                         write_cell.wraps.store(wrap_valid_tag, Release);
                         return Ok(());
@@ -349,13 +349,13 @@ impl<RW: QueueRW<T>, T> MultiQueue<RW, T> {
             fence(Acquire);
             transaction.commit_direct(1, Relaxed);
             let current_tag = write_cell.wraps.load(Relaxed);
-            #[cfg(multiqueue2_verif)]
-            crate::verif_hooks::touch(&write_cell.val as *const T);
             let _possible_drop = if RW::do_drop() && !is_tagged(current_tag) {
                 Some(ptr::read(&write_cell.val))
             } else {
                 None
             };
+            #[cfg(multiqueue2_verif)]
+            crate::verif_hooks::touch(&write_cell.val as *const T);
             ptr::write(&mut write_cell.val, val);
             write_cell.wraps.store(wrap_valid_tag, Release);
             Ok(())
